@@ -3,7 +3,10 @@
    Assumptions and non-vacuity examples live here.
    Models: Model/Tangent.v (NR = NumR, TR = NumTR: the reals).
    Names: _partial = proved under the stated extra hypothesis,
-          _refuted = the faithful model of the current code violates the statement. *)
+          _refuted = the faithful model of the UNREPAIRED code (flag false) violates the statement.
+   The flag rp of cubic_unit_tangent / quad_unit_tangent selects the fallback at a zero of the
+   derivative: false = rational_limit + principal square root (pinned tree), true = direction of the
+   first non-vanishing higher derivative (fix); theorems about regular points hold for both. *)
 From Coq Require Import ZArith List Reals Lra.
 From Coquelicot Require Import Coquelicot.
 From SVP Require Import Base.Num Base.Cplx Base.Poly Model.Bezier Model.Tangent
@@ -25,13 +28,13 @@ Theorem C15_model_derivatives_true : forall s c1 c2 e t,
 Proof. intros; split; [exact (cubic_true_derivs s c1 c2 e t)|exact (quad_true_derivs s c1 e t)]. Qed.
 
 (* --- unit tangent at regular points: modulus 1 and equal to d/|d| --- *)
-Theorem C15_unit : forall s c1 c2 e rx ry rot th de t,
+Theorem C15_unit : forall rp s c1 c2 e rx ry rot th de t,
   (cubic_d NR s c1 c2 e t 1 <> (0, 0) ->
-   exists u, cubic_unit_tangent NR TR s c1 c2 e t = Val u /\
+   exists u, cubic_unit_tangent NR TR rp s c1 c2 e t = Val u /\
              nrm u = 1 /\ u = (fst (cubic_d NR s c1 c2 e t 1) / nrm (cubic_d NR s c1 c2 e t 1),
                                snd (cubic_d NR s c1 c2 e t 1) / nrm (cubic_d NR s c1 c2 e t 1))) /\
   (quad_d NR s c1 e t 1 <> (0, 0) ->
-   exists u, quad_unit_tangent NR TR s c1 e t = Val u /\
+   exists u, quad_unit_tangent NR TR rp s c1 e t = Val u /\
              nrm u = 1 /\ u = (fst (quad_d NR s c1 e t 1) / nrm (quad_d NR s c1 e t 1),
                                snd (quad_d NR s c1 e t 1) / nrm (quad_d NR s c1 e t 1))) /\
   (e <> s ->
@@ -43,16 +46,16 @@ Theorem C15_unit : forall s c1 c2 e rx ry rot th de t,
      (fst (arc_d1 NR TR rx ry rot th de t) / nrm (arc_d1 NR TR rx ry rot th de t),
       snd (arc_d1 NR TR rx ry rot th de t) / nrm (arc_d1 NR TR rx ry rot th de t))).
 Proof.
-  intros. split; [exact (@unit_cubic s c1 c2 e t)|]. split; [exact (@unit_quad s c1 e t)|].
+  intros. split; [exact (@unit_cubic rp s c1 c2 e t)|]. split; [exact (@unit_quad rp s c1 e t)|].
   split; [exact (@unit_line s e t)|exact (@unit_arc rx ry rot th de t)].
 Qed.
 
 (* --- normal(t) = -i * unit_tangent(t): the unit tangent rotated by -90 degrees;
        same modulus, perpendicular, to the right of the direction of travel --- *)
-Theorem C15_normal_rot : forall s c1 c2 e rx ry rot th de t,
+Theorem C15_normal_rot : forall rp s c1 c2 e rx ry rot th de t,
   is_normal_of (line_normal NR TR s e t) (line_unit_tangent NR TR s e t) /\
-  res_rel is_normal_of (quad_normal NR TR s c1 e t) (quad_unit_tangent NR TR s c1 e t) /\
-  res_rel is_normal_of (cubic_normal NR TR s c1 c2 e t) (cubic_unit_tangent NR TR s c1 c2 e t) /\
+  res_rel is_normal_of (quad_normal NR TR rp s c1 e t) (quad_unit_tangent NR TR rp s c1 e t) /\
+  res_rel is_normal_of (cubic_normal NR TR rp s c1 c2 e t) (cubic_unit_tangent NR TR rp s c1 c2 e t) /\
   is_normal_of (arc_normal NR TR rx ry rot th de t) (arc_unit_tangent NR TR rx ry rot th de t).
 Proof. exact normal_all. Qed.
 
@@ -92,43 +95,43 @@ Proof. exact arc_circle_curvature. Qed.
 
 (* --- similarity transforms p |-> w*p + z, w = lambda*e^{i theta} <> 0, applied to
        the control points (aff w z p) --- *)
-Theorem C15_tangent_translate : forall s c1 c2 e t z, cubic_d NR s c1 c2 e t 1 <> (0, 0) ->
-  cubic_unit_tangent NR TR (aff (1, 0) z s) (aff (1, 0) z c1) (aff (1, 0) z c2) (aff (1, 0) z e) t
-  = cubic_unit_tangent NR TR s c1 c2 e t.
+Theorem C15_tangent_translate : forall rp s c1 c2 e t z, cubic_d NR s c1 c2 e t 1 <> (0, 0) ->
+  cubic_unit_tangent NR TR rp (aff (1, 0) z s) (aff (1, 0) z c1) (aff (1, 0) z c2) (aff (1, 0) z e) t
+  = cubic_unit_tangent NR TR rp s c1 c2 e t.
 Proof. exact tangent_translate. Qed.
-Theorem C15_tangent_rotate : forall s c1 c2 e t th z, cubic_d NR s c1 c2 e t 1 <> (0, 0) ->
-  cubic_unit_tangent NR TR (aff (cos th, sin th) z s) (aff (cos th, sin th) z c1)
+Theorem C15_tangent_rotate : forall rp s c1 c2 e t th z, cubic_d NR s c1 c2 e t 1 <> (0, 0) ->
+  cubic_unit_tangent NR TR rp (aff (cos th, sin th) z s) (aff (cos th, sin th) z c1)
                            (aff (cos th, sin th) z c2) (aff (cos th, sin th) z e) t
-  = res_map (cmul NR (cos th, sin th)) (cubic_unit_tangent NR TR s c1 c2 e t).
+  = res_map (cmul NR (cos th, sin th)) (cubic_unit_tangent NR TR rp s c1 c2 e t).
 Proof. exact tangent_rotate. Qed.
-Theorem C15_tangent_scale : forall s c1 c2 e t (l : R) z, 0 < l -> cubic_d NR s c1 c2 e t 1 <> (0, 0) ->
-  cubic_unit_tangent NR TR (aff (l, 0) z s) (aff (l, 0) z c1) (aff (l, 0) z c2) (aff (l, 0) z e) t
-  = cubic_unit_tangent NR TR s c1 c2 e t.
+Theorem C15_tangent_scale : forall rp s c1 c2 e t (l : R) z, 0 < l -> cubic_d NR s c1 c2 e t 1 <> (0, 0) ->
+  cubic_unit_tangent NR TR rp (aff (l, 0) z s) (aff (l, 0) z c1) (aff (l, 0) z c2) (aff (l, 0) z e) t
+  = cubic_unit_tangent NR TR rp s c1 c2 e t.
 Proof. exact tangent_scale. Qed.
 (* general form, all three segment classes *)
-Theorem C15_tangent_similarity : forall w z s c1 c2 e t, w <> (0, 0) ->
+Theorem C15_tangent_similarity : forall rp w z s c1 c2 e t, w <> (0, 0) ->
   (cubic_d NR s c1 c2 e t 1 <> (0, 0) ->
-   cubic_unit_tangent NR TR (aff w z s) (aff w z c1) (aff w z c2) (aff w z e) t
-   = res_map (cmul NR (unit_of NR TR w)) (cubic_unit_tangent NR TR s c1 c2 e t)) /\
+   cubic_unit_tangent NR TR rp (aff w z s) (aff w z c1) (aff w z c2) (aff w z e) t
+   = res_map (cmul NR (unit_of NR TR w)) (cubic_unit_tangent NR TR rp s c1 c2 e t)) /\
   (quad_d NR s c1 e t 1 <> (0, 0) ->
-   quad_unit_tangent NR TR (aff w z s) (aff w z c1) (aff w z e) t
-   = res_map (cmul NR (unit_of NR TR w)) (quad_unit_tangent NR TR s c1 e t)) /\
+   quad_unit_tangent NR TR rp (aff w z s) (aff w z c1) (aff w z e) t
+   = res_map (cmul NR (unit_of NR TR w)) (quad_unit_tangent NR TR rp s c1 e t)) /\
   (e <> s ->
    line_unit_tangent NR TR (aff w z s) (aff w z e) t
    = cmul NR (unit_of NR TR w) (line_unit_tangent NR TR s e t)).
 Proof.
-  intros w z s c1 c2 e t Hw. split; [exact (@tangent_similarity_cubic w z s c1 c2 e t Hw)|].
-  split; [exact (@tangent_similarity_quad w z s c1 e t Hw)|exact (@tangent_similarity_line w z s e t Hw)].
+  intros rp w z s c1 c2 e t Hw. split; [exact (@tangent_similarity_cubic rp w z s c1 c2 e t Hw)|].
+  split; [exact (@tangent_similarity_quad rp w z s c1 e t Hw)|exact (@tangent_similarity_line w z s e t Hw)].
 Qed.
-Theorem C15_tangent_reversed : forall s c1 c2 e t,
+Theorem C15_tangent_reversed : forall rp s c1 c2 e t,
   (cubic_d NR s c1 c2 e t 1 <> (0, 0) ->
-   cubic_unit_tangent NR TR e c2 c1 s (1 - t) = res_map (copp NR) (cubic_unit_tangent NR TR s c1 c2 e t)) /\
+   cubic_unit_tangent NR TR rp e c2 c1 s (1 - t) = res_map (copp NR) (cubic_unit_tangent NR TR rp s c1 c2 e t)) /\
   (quad_d NR s c1 e t 1 <> (0, 0) ->
-   quad_unit_tangent NR TR e c1 s (1 - t) = res_map (copp NR) (quad_unit_tangent NR TR s c1 e t)) /\
+   quad_unit_tangent NR TR rp e c1 s (1 - t) = res_map (copp NR) (quad_unit_tangent NR TR rp s c1 e t)) /\
   line_unit_tangent NR TR e s (1 - t) = copp NR (line_unit_tangent NR TR s e t).
 Proof.
-  intros. split; [exact (@tangent_reversed_cubic s c1 c2 e t)|].
-  split; [exact (@tangent_reversed_quad s c1 e t)|exact (tangent_reversed_line s e t)].
+  intros. split; [exact (@tangent_reversed_cubic rp s c1 c2 e t)|].
+  split; [exact (@tangent_reversed_quad rp s c1 e t)|exact (tangent_reversed_line s e t)].
 Qed.
 
 Theorem C15_curvature_similarity : forall w z s c1 c2 e t, w <> (0, 0) ->
@@ -193,12 +196,12 @@ Proof. exact limit_direction_quad. Qed.
    half plane, -f1/|f1| in the open left half plane *)
 Theorem C15_singular_value : forall s c1 c2 e t0,
   (cubic_d NR s c1 c2 e t0 1 = (0, 0) -> cubic_d NR s c1 c2 e t0 2 <> (0, 0) ->
-   cubic_unit_tangent NR TR s c1 c2 e t0 = Val (principal_dir (cubic_d NR s c1 c2 e t0 2))) /\
+   cubic_unit_tangent NR TR false s c1 c2 e t0 = Val (principal_dir (cubic_d NR s c1 c2 e t0 2))) /\
   (cubic_d NR s c1 c2 e t0 1 = (0, 0) -> cubic_d NR s c1 c2 e t0 2 = (0, 0) ->
    cubic_d NR s c1 c2 e t0 3 <> (0, 0) ->
-   cubic_unit_tangent NR TR s c1 c2 e t0 = Val (principal_dir (cubic_d NR s c1 c2 e t0 3))) /\
+   cubic_unit_tangent NR TR false s c1 c2 e t0 = Val (principal_dir (cubic_d NR s c1 c2 e t0 3))) /\
   (quad_d NR s c1 e t0 1 = (0, 0) -> quad_d NR s c1 e t0 2 <> (0, 0) ->
-   quad_unit_tangent NR TR s c1 e t0 = Val (principal_dir (quad_d NR s c1 e t0 2))) /\
+   quad_unit_tangent NR TR false s c1 e t0 = Val (principal_dir (quad_d NR s c1 e t0 2))) /\
   (forall w, w <> (0, 0) ->
      (right_half w -> principal_dir w = unit_of NR TR w) /\
      (left_half w -> principal_dir w = copp NR (unit_of NR TR w)) /\
@@ -210,9 +213,9 @@ Proof. exact singular_value. Qed.
 Theorem C15_singular_limit_partial : forall s c1 c2 e t0,
   cubic_d NR s c1 c2 e t0 1 = (0, 0) -> cubic_d NR s c1 c2 e t0 2 <> (0, 0) ->
   (right_half (cubic_d NR s c1 c2 e t0 2) ->
-     exists u, lim_right (quot_cubic s c1 c2 e) t0 u /\ cubic_unit_tangent NR TR s c1 c2 e t0 = Val u) /\
+     exists u, lim_right (quot_cubic s c1 c2 e) t0 u /\ cubic_unit_tangent NR TR false s c1 c2 e t0 = Val u) /\
   (left_half (cubic_d NR s c1 c2 e t0 2) ->
-     exists u, lim_left (quot_cubic s c1 c2 e) t0 u /\ cubic_unit_tangent NR TR s c1 c2 e t0 = Val u).
+     exists u, lim_left (quot_cubic s c1 c2 e) t0 u /\ cubic_unit_tangent NR TR false s c1 c2 e t0 = Val u).
 Proof. exact singular_limit_partial. Qed.
 
 (* refutation: CubicBezier(0, 0, -1+1j, -2).unit_tangent(0) is the NEGATIVE of the
@@ -220,25 +223,53 @@ Proof. exact singular_limit_partial. Qed.
 Theorem C15_singular_sign_refuted :
   exists u, cubic_d NR w_s w_c1 w_c2 w_e 0 1 = (0, 0) /\
             lim_right (quot_cubic w_s w_c1 w_c2 w_e) 0 u /\ fst u < 0 /\
-            cubic_unit_tangent NR TR w_s w_c1 w_c2 w_e 0 = Val (copp NR u) /\ copp NR u <> u.
+            cubic_unit_tangent NR TR false w_s w_c1 w_c2 w_e 0 = Val (copp NR u) /\ copp NR u <> u.
 Proof. exact singular_sign_witness. Qed.
 (* ... and so is every simple zero whose heading lies in the open left half plane *)
 Theorem C15_singular_sign_left_half_refuted : forall s c1 c2 e t0,
   cubic_d NR s c1 c2 e t0 1 = (0, 0) -> cubic_d NR s c1 c2 e t0 2 <> (0, 0) ->
   (left_half (cubic_d NR s c1 c2 e t0 2) ->
    exists u, lim_right (quot_cubic s c1 c2 e) t0 u /\
-             cubic_unit_tangent NR TR s c1 c2 e t0 = Val (copp NR u) /\ copp NR u <> u) /\
+             cubic_unit_tangent NR TR false s c1 c2 e t0 = Val (copp NR u) /\ copp NR u <> u) /\
   (right_half (cubic_d NR s c1 c2 e t0 2) ->
    exists u, lim_left (quot_cubic s c1 c2 e) t0 u /\
-             cubic_unit_tangent NR TR s c1 c2 e t0 = Val (copp NR u) /\ copp NR u <> u).
+             cubic_unit_tangent NR TR false s c1 c2 e t0 = Val (copp NR u) /\ copp NR u <> u).
 Proof.
   intros s c1 c2 e t0 H1 H2.
   split; [exact (singular_sign_general H1 H2)|exact (singular_sign_general_left H1 H2)].
 Qed.
 (* the same defect by execution: exact rationals (rational_limit = -i) and 120-bit floats *)
 Theorem C15_singular_sign_refuted_exec :
-  wq_limit_is_minus_i = true /\ wb_check = true /\ wb_inside_check = true.
-Proof. exact (conj witness_Q (conj witness_B witness_B_inside)). Qed.
+  wq_limit_is_minus_i = true /\ wb_check = true /\ wb_inside_check = true /\ wb_check_repaired = true.
+Proof. exact (conj witness_Q (conj witness_B (conj witness_B_inside witness_B_repaired))). Qed.
+
+(* REPAIRED variant (flag true: fix "unit_tangent at a zero of the derivative follows the
+   direction of travel"): at a zero of order k = 1, 2 of the derivative unit_tangent IS the
+   limit of derivative/|derivative| from inside the parameter interval, for every heading *)
+Theorem C15_singular_limit : forall s c1 c2 e t0, cubic_d NR s c1 c2 e t0 1 = (0, 0) ->
+  (cubic_d NR s c1 c2 e t0 2 <> (0, 0) -> t0 <> 1 ->
+     exists u, lim_right (quot_cubic s c1 c2 e) t0 u /\ cubic_unit_tangent NR TR true s c1 c2 e t0 = Val u) /\
+  (cubic_d NR s c1 c2 e t0 2 <> (0, 0) -> t0 = 1 ->
+     exists u, lim_left (quot_cubic s c1 c2 e) t0 u /\ cubic_unit_tangent NR TR true s c1 c2 e t0 = Val u) /\
+  (cubic_d NR s c1 c2 e t0 2 = (0, 0) -> cubic_d NR s c1 c2 e t0 3 <> (0, 0) ->
+     exists u, lim_right (quot_cubic s c1 c2 e) t0 u /\ lim_left (quot_cubic s c1 c2 e) t0 u /\
+               cubic_unit_tangent NR TR true s c1 c2 e t0 = Val u).
+Proof. exact singular_limit_repaired_cubic. Qed.
+Theorem C15_singular_limit_quad : forall s c e t0,
+  quad_d NR s c e t0 1 = (0, 0) -> quad_d NR s c e t0 2 <> (0, 0) ->
+  (t0 <> 1 -> exists u, lim_right (quot_quad s c e) t0 u /\ quad_unit_tangent NR TR true s c e t0 = Val u) /\
+  (t0 = 1 -> exists u, lim_left (quot_quad s c e) t0 u /\ quad_unit_tangent NR TR true s c e t0 = Val u).
+Proof. exact singular_limit_repaired_quad. Qed.
+(* all higher derivatives zero (all control points equal): ValueError, no direction exists *)
+Theorem C15_singular_degenerate : forall s c1 c2 e t0,
+  cubic_d NR s c1 c2 e t0 1 = (0, 0) -> cubic_d NR s c1 c2 e t0 2 = (0, 0) ->
+  cubic_d NR s c1 c2 e t0 3 = (0, 0) -> cubic_unit_tangent NR TR true s c1 c2 e t0 = ErrValue.
+Proof. exact cubic_repaired_degenerate. Qed.
+(* the witness of the defect, repaired: CubicBezier(0, 0, -1+1j, -2).unit_tangent(0) is the limit *)
+Theorem C15_singular_witness_repaired :
+  exists u, lim_right (quot_cubic w_s w_c1 w_c2 w_e) 0 u /\ fst u < 0 /\
+            cubic_unit_tangent NR TR true w_s w_c1 w_c2 w_e 0 = Val u.
+Proof. exact singular_witness_repaired. Qed.
 
 (* --- non-vacuity --- *)
 Example C15_nonvacuous_regular :
@@ -276,6 +307,10 @@ Print Assumptions C15_limit_direction.
 Print Assumptions C15_limit_direction_quad.
 Print Assumptions C15_singular_value.
 Print Assumptions C15_singular_limit_partial.
+Print Assumptions C15_singular_limit.
+Print Assumptions C15_singular_limit_quad.
+Print Assumptions C15_singular_degenerate.
+Print Assumptions C15_singular_witness_repaired.
 Print Assumptions C15_singular_sign_refuted.
 Print Assumptions C15_singular_sign_left_half_refuted.
 Print Assumptions C15_singular_sign_refuted_exec.
